@@ -366,7 +366,7 @@ def C09(ctx):
     sync_family(ctx, families.chans(ctx.tier, ctx.seed))
     # Dpor.tla with the channel's dependence classes: every program of the space, reference = full interleavings (TLC)
     dpor_space(ctx, [None], ("C01",), quick_sample=200, spaces=dpor_extra_spaces(["chan"]))
-    dpor_space(ctx, [None], ("C01",), quick_sample=25, thorough_sample=400, spaces=dpor_extra_spaces(["csch"]))
+    dpor_space(ctx, [None], ("C01",), quick_sample=10, thorough_sample=400, spaces=dpor_extra_spaces(["csch"]))
 
 
 def C10(ctx):
